@@ -794,11 +794,6 @@ where
                 }
             } else if let Err(p) = Self::lib(cx, move || drop(d)) {
                 fault |= unexpected(cx, liar, P10, &p);
-                if p == Pk::Injected && !liar {
-                    let post = Self::observe(&slot.c).unwrap_or_default();
-                    let l = slot.c.m.len();
-                    cx.chk(P10, post.is_empty() && l == 0, "drain-drop-panic", || format!("the drain was dropped (an element destructor panicked on the way), yet the set holds {} elements (len() = {l})", post.len()));
-                }
             }
             cx.log(|| format!("drain[{w}] take {take} end {end} of {n}: yielded {:?}", ys.iter().map(|y| y.0).collect::<Vec<_>>()));
             if !liar {
